@@ -785,7 +785,10 @@ class StopSequenceMonitor(Monitor):
         """ The stop of that process has been given up on timeout (forced STOPPED published), by this plan or by
         an earlier one since the process entered STOPPING. """
         stopping_since = min([t for (n, ns), t in self.stopping_since.items() if ns == namespec] or [since])
+        # Supervisor itself kills the process after stopwaitsecs: a stop abandoned before that is not a timeout
+        wait = self.run.prog_of(namespec)[1].get('stopwaitsecs', 0) if namespec in self.run.procs else 0
         return any(f['namespec'] == namespec and f['t'] >= min(since, stopping_since) and f['state'] == 0
+                   and f['t'] - min(since, stopping_since) >= wait - 0.01
                    for f in self.tracker.forced)
 
     def on_stop(self, inst, req):
@@ -989,6 +992,7 @@ class JobTerminationMonitor(Monitor):
                       'stop': 3 * stop_ticks + eff['inactivity_ticks'] + 6}
         self.last_truth = {}
         self.left_running = {}
+        self.state_since = {}
         self.has_wait_exit = any(p.get('wait_exit') for p in progs)
 
     def last_request(self, inst, kind):
@@ -1062,6 +1066,31 @@ class JobTerminationMonitor(Monitor):
                                  f"{info['statename']} two ticks later, with no event of that process in between",
                                  case=self.run.describe())
 
+    def check_premature(self, inst, rec):
+        """ A job is only abandoned once the margin has elapsed: not while the process is truly STOPPING for less than
+        stopwaitsecs (Supervisor kills it then), nor truly STARTING for less than startsecs. """
+        w = self.run.world
+        namespec = rec['namespec']
+        target = w.by_identifier.get(rec['target'])
+        if namespec not in self.run.procs or target is None:
+            return
+        prog = self.run.prog_of(namespec)[1]
+        truth = self.tracker.truth.get((target, namespec))
+        since = self.state_since.get((target, namespec))
+        if since is None:
+            return
+        self.count('give_up_timing_checks')
+        if rec['state'] == 0 and truth == 40 and w.now - since < prog.get('stopwaitsecs', 0) - 0.01:
+            self.violate('C10/stop-given-up-before-stopwaitsecs',
+                         f"{inst.nick} gave up the stop of {namespec} on {target} at vt={vt(w)} ({rec['reason']}) "
+                         f"although it has been STOPPING for {round(w.now - since, 2)}s only (stopwaitsecs "
+                         f"{prog.get('stopwaitsecs')})", case=self.run.describe())
+        elif rec['state'] == 200 and truth == 10 and w.now - since < prog.get('startsecs', 0) - 0.01:
+            self.violate('C10/start-given-up-before-startsecs',
+                         f"{inst.nick} gave up the start of {namespec} on {target} at vt={vt(w)} ({rec['reason']}) "
+                         f"although it has been STARTING for {round(w.now - since, 2)}s only (startsecs "
+                         f"{prog.get('startsecs')})", case=self.run.describe())
+
     def lost_exit(self, inst):
         """ Mechanism: the EXITED event of a wait_exit program was lost; its start job has no timeout. """
         run = self.run
@@ -1098,6 +1127,7 @@ class JobTerminationMonitor(Monitor):
 
     def on_forced(self, inst, rec):
         w = self.run.world
+        self.check_premature(inst, rec)
         if not rec['reason']:
             self.violate('C10/forced-without-reason', f"{inst.nick} forced {rec['namespec']} to {rec['state']} "
                          f'without any reason')
@@ -1118,6 +1148,7 @@ class JobTerminationMonitor(Monitor):
     def on_event(self, ev):
         if ev['k'] == 'truth':
             self.last_truth[ev['namespec']] = ev['t']
+            self.state_since[(ev['inst'], ev['namespec'])] = ev['t']
             if ev['state'] == 20:
                 self.left_running.pop((ev['inst'], ev['namespec']), None)
             else:
